@@ -43,10 +43,19 @@ class DCheck:
                 rch = Choices(ch.seed, replay=[])
                 rs = lambda ex: self.setup(ex, rch, {"reference": True})  # noqa: E731
             ref = run_exec(prog, knobs, Choices(ch.seed, replay=[]), DOpts(), setup=rs, max_steps=4000)
-        budget = (12 * ref["steps"] + 100 if ref else 1500) + 3 * knobs.max_stage_wait_retries
+        budget = (12 * ref["steps"] + 100 if ref else getattr(self, "free_budget", 1500)) + 3 * knobs.max_stage_wait_retries
+        if ref is not None:
+            info["ref_steps"] = ref["steps"]
         st = None
         if self.setup is not None:
-            st = lambda ex: self.setup(ex, ch, info)  # noqa: E731
+            def st(ex: Exec) -> None:
+                self.setup(ex, ch, info)
+                if info.get("on_crash") is not None:
+                    ex.on_crash_hook = info["on_crash"]  # type: ignore[attr-defined]
+                if info.get("sweeps") is not None:
+                    ex.sweeps = info["sweeps"]  # type: ignore[attr-defined]
+        info["trace_pos_run"] = len(ch.trace)
+        info["budget"] = budget
         run = run_exec(prog, knobs, ch, opts, setup=st, max_steps=budget,
                        cancel_requested=bool(info.get("cancel_requested")))
         return prog, ref, run, info
@@ -70,7 +79,7 @@ class DCheck:
         for v in vs:
             v["replay"] = {"check": self.prop, "seed": seed, "trace": ch.trace}
         out["violations"] = vs
-        out["samples"].append(sample_of(prog, ch.trace, {"info": {k: v for k, v in info.items() if k != "knobs"},
+        out["samples"].append(sample_of(prog, ch.trace, {"info": {k: v for k, v in info.items() if k != "knobs" and not callable(v)},
                                                         "deliveries": run["res"].deliveries[:25]}))
         for f in prog.features():
             out["stats"]["feature:" + f] = 1
